@@ -182,7 +182,7 @@ REGISTRY = {"C07": c07}
 # ---------------------------------------------------------------------------------------------
 # C06: diagnostics name the true source location
 # ---------------------------------------------------------------------------------------------
-HFILES = {"h3.h": "char h3a;\nchar h3b;\nchar h3c;\n", "h2x.h": "char h2a;\nchar h2b;", "a.inc": "; assembler\n\tNOP\n",
+HFILES = {"h3.h": "char h3a;\nchar h3b;\nchar h3c;\n", "h2x.h": "char h2a;\nchar h2b;", "a.inc": "; assembler \u00e9\u00e8 \u20ac (text outside ASCII)\n\tNOP\n",
           "hg.h": "#ifndef HG_H\n#define HG_H\nchar hga;\n#endif", "hc.h": "char hca;\n// no newline after this comment"}
 
 
